@@ -19,7 +19,7 @@ EXPLANATION = (
     'operations never graft the operand\'s sub-tries by reference; (f) the '
     'dict-to-list density test is two sided.  The round-trip and set-algebra '
     'laws over all keys are value-level and not decided.')
-FLOORS = {'C10.a': 1, 'C10.b': 5, 'C10.c': 3, 'C10.d': 2, 'C10.e': 2, 'C10.f': 1}
+FLOORS = {'C10.a': 1, 'C10.b': 2, 'C10.c': 1, 'C10.d': 1, 'C10.e': 1, 'C10.f': 1}
 FILES = ['pyglove/core/utils/value_location.py', 'pyglove/core/utils/hierarchical.py',
          'pyglove/core/symbolic/base.py']
 VL = 'pyglove.core.utils.value_location.'
